@@ -56,7 +56,9 @@ def oracle(ctx, rec):
             cls = 'leeway' if leeway_ticks_us < (maxd // 2 + 1) * 10**6 else None
             why = 'availability test (start %d ticks vs firstAvailableTime - leeway)' % t
         else:
-            cls = 'number-window'
+            # known only when explained by the missing start_number of $Time$ requests
+            fl = rec['first_last']
+            cls = 'number-window' if fl[0] <= nt[0] + rep['start_number'] <= fl[1] else None
             why = 'first/last number window (number %d, window %r)' % (nt[0], rec['first_last'])
         ctx.violation('advertised timeline entry $Time$=%d (ends %d <= now %d) is refused by the %s' % (t, t + d, now_tc, why),
                       {'rep': rep, 'tm': rec['tm'], 'q': [t, None]}, key=cls)
@@ -74,7 +76,7 @@ def oracle(ctx, rec):
             cls = 'leeway' if leeway_ticks_us < 2 * sd * 10**6 + 10**6 else None
             why = 'availability test'
         else:
-            cls = 'number-window'
+            cls = None
             why = 'first/last number window %r' % (rec['first_last'],)
         ctx.violation('$Number$=%d is inside its 5.3.9.5.3 availability window but refused by the %s' % (nn, why),
                       {'rep': rep, 'tm': rec['tm'], 'q': [None, nn]}, key=cls)
